@@ -48,6 +48,10 @@ def graph_of(inst):
         G.nodes[v]["flow"] = num(q, wint)
     for u, v, q in inst.get("lengths", []) or []:
         G[u][v]["length"] = num(q, True)
+    if inst.get("stale_file_attrs"):
+        # what graphutils.read_graph stores on a graph (n, m, w, constraints) - here deliberately stale, as after
+        # reading a file and then editing / copying the graph: user-visible metadata must not influence any model
+        G.graph.update(inst["stale_file_attrs"])
     return G
 
 
